@@ -121,35 +121,41 @@ def check(ctx: Ctx) -> None:
             ob.violation(fs, fs.node, "the scheduling step does not wait for the previous task before handing over the next one", construct="wait/spawn missing")
 
     # ---- C14.c main-thread arm of the mailbox
-    ft = repo.func("gateway_base.WorkerPool._try_send_to_primary_thread")
-    cfgt = build_cfg(repo, ft, Oracle(repo, ft, precise=True))
+    # spawn and (where it still exists as a function of its own) _try_send_to_primary_thread are analysed as one unit
+    ft = repo.merged("gateway_base.WorkerPool.spawn", ["gateway_base.WorkerPool._try_send_to_primary_thread"])
     with ctx.obligation("C14.c", "main-thread-arm") as ob:
-        base = Facts(repo, ft, {}, expand_locals=True)
-        base.assume_src("self.execmodel.backend == 'main_thread_only'", True)
-        base.assume_src("self._primary_thread_task_ready is None", False)
+        from ..terms import NONE as _NONE, const as _c, evaluator as _ev
+        evt = _ev(repo, ft)
+        READY = ("sym", "self._primary_thread_task_ready")
+        BOX = ("sym", "self._primary_thread_task")
+        MTO = ("cmp", "eq", ("sym", "self.execmodel.backend"), _c("main_thread_only"))
         n_false = 0
-        for path, facts in feasible_paths(repo, ft, cfgt, base, kill_on_store=False):
-            last = cfgt.nodes[path[-2][0]]
-            if not (isinstance(last.ast, ast.Return)):
-                if path[-1][0] == cfgt.exit.id:
-                    val = None
-                else:
-                    continue
-            else:
-                val = repo.fold_in(last.ast.value, ft) if last.ast.value is not None else None
-            if val is True:
+        for (pth, st) in evt.run(limit=20000):
+            if pth[-1][0] != evt.cfg.exit.id:
                 continue
+            starts = [e for e in st.events if e.kind == "call" and e.callee == "self.execmodel.start"]
+            if not starts:
+                continue
+            cond = st.cond[:starts[0].ncond]
+            from ..terms import implies as _implies
+            NOREADY = ("cmp", "is", READY, _NONE)
+            if _implies(cond, NOREADY) is True:
+                continue  # a pool without a primary thread (never the main_thread_only pool)
+            if _implies(cond, ("not", MTO)) is True:
+                continue  # 'thread' model: overflow into a new thread is intended
             n_false += 1
-            isset = facts.value_src("self._primary_thread_task_ready.is_set()")
-            mailbox_none = facts.value_src("self._primary_thread_task is None")
-            ob.site(ft, last.ast, "path returning False under main_thread_only", is_set=isset, mailbox_is_None=mailbox_none,
-                    path=cfgt.describe_path(path))
+            issets = [e.result for e in st.events if e.kind == "call" and e.callee == "self._primary_thread_task_ready.is_set"]
+            under_mto = list(cond) + [(MTO, True), (NOREADY, False)]
+            isset = any(_implies(under_mto, r) is True for r in issets)
+            mailbox_none = _implies(under_mto, ("cmp", "is", BOX, _NONE)) is True
+            ob.site(ft, starts[0].node, "path starting a new thread while main_thread_only is possible", is_set=isset, mailbox_is_None=mailbox_none,
+                    path=evt.cfg.describe_path(pth))
             if not (isset is True and mailbox_none is True):
-                ob.violation(ft, last.ast,
+                ob.violation(ft, starts[0].node,
                              "under main_thread_only a path falls through to a new thread without the condition "
                              "'event set and mailbox is None' (the body would not run in the main thread)",
-                             path=cfgt.describe_path(path), facts=dict(facts.env))
-        ob.require(n_false >= 1, "no fall-through path found in _try_send_to_primary_thread")
+                             path=evt.cfg.describe_path(pth))
+        ob.require(n_false >= 1, "no fall-through path found in spawn / _try_send_to_primary_thread")
         # writer census: who stores None into the mailbox
         writers = []
         for f in repo.scan_funcs():
